@@ -341,6 +341,26 @@ func TestVerifC11(t *testing.T) {
 						lines, _, _ = vTNotices(r, lines, vNoticeLine)
 					}
 				}
+				if r.Intn(3) == 0 {
+					// a word continued over three lines, with further words after it
+					for tries := 0; tries < 3; tries++ {
+						i := r.Intn(len(lines))
+						if i > 0 && vEndsHyphen(lines[i-1]) || vEndsHyphen(lines[i]) || vNoticeLike.MatchString(lines[i]) {
+							continue
+						}
+						locs := regexp.MustCompile(`[A-Za-z]{8,}`).FindAllStringIndex(lines[i], -1)
+						if len(locs) == 0 {
+							continue
+						}
+						loc := locs[r.Intn(len(locs))]
+						c1 := loc[0] + 2 + r.Intn(loc[1]-loc[0]-5)
+						c2 := c1 + 1 + r.Intn(loc[1]-c1-2)
+						l := lines[i]
+						nl := []string{l[:c1] + "-", "  " + l[c1:c2] + "-", l[c2:]}
+						lines = append(lines[:i], append(nl, lines[i+1:]...)...)
+						break
+					}
+				}
 				if r.Intn(4) == 0 {
 					// CR LF line endings on top (also after hyphen-split lines)
 					for i := range lines {
